@@ -36,12 +36,31 @@ MAX_CRASHES = 40        # sanitizer aborts tolerated per driver batch
 CLASS_CRASHES = 6       # ... and per input class (len_class) before that class is no longer executed
 
 
+def _defines(path):
+    """All #define directives of a header (with continuation lines), without the include guard."""
+    out, lines = [], open(path, encoding="utf-8", errors="replace").read().split("\n")
+    i = 0
+    while i < len(lines):
+        ln = lines[i]
+        if re.match(r"^\s*#\s*define\s+\w+", ln):
+            blk = [ln]
+            while blk[-1].rstrip().endswith("\\") and i + 1 < len(lines):
+                i += 1
+                blk.append(lines[i])
+            m = re.match(r"^\s*#\s*define\s+(\w+)\s*(/\*.*\*/)?\s*$", blk[0])
+            if not (m and len(blk) == 1 and re.search(r"_H_*$", m.group(1))):
+                out.append("\n".join(blk))
+        i += 1
+    return "\n".join(out) + "\n"
+
+
 # ------------------------------------------------------------------ build
 def build(ctx):
     sysinfo_c = L23 + "/src/common/sysinfo.c"
     sysinfo_h = L23 + "/include/osmocom/bb/common/sysinfo.h"
     fn = cbuild.slice_with_static_deps(sysinfo_c, [r"^int gsm48_decode_mobile_alloc\s*\("])
-    masks = cbuild.slice_lines(sysinfo_h, r"^#define\s+FREQ_TYPE_SERV\b", r"^#define\s+FREQ_TYPE_REP_5ter\b")
+    # every macro of the header (the flags and whatever named constants the decoder uses), but for its guard
+    masks = _defines(sysinfo_h)
     proto = cbuild.slice_lines(sysinfo_h, r"^int gsm48_decode_mobile_alloc\s*\(", r"\)\s*;")
     s = ctx.scratch
     with open(s + "/moballoc_gen.h", "w") as f:
@@ -60,9 +79,9 @@ def build(ctx):
 
 
 # ------------------------------------------------------------------ build (SI1 / SI4 callers)
+# the public entry points; the static helpers they use (whatever they are called) come with them
 SI_SLICES = [r"^int gsm48_decode_chan_h0\s*\(", r"^int gsm48_decode_chan_h1\s*\(",
-             r"^static int decode_freq_list\s*\(", r"^static int gsm48_decode_cell_sel_param\s*\(",
-             r"^int gsm48_decode_mobile_alloc\s*\(", r"^static int gsm48_decode_rach_ctl_param\s*\(",
+             r"^int gsm48_decode_mobile_alloc\s*\(",
              r"^int gsm48_decode_sysinfo1\s*\(", r"^int gsm48_decode_sysinfo4\s*\("]
 
 
